@@ -1688,7 +1688,8 @@ class InTablePhase(Phase):
     # helper methods
     def clearStackToTableContext(self):
         # "clear the stack back to a table context"
-        while self.tree.openElements[-1].name not in ("table", "html"):
+        while (self.tree.openElements[-1].namespace != self.tree.defaultNamespace or
+               self.tree.openElements[-1].name not in ("table", "html")):
             # self.parser.parseError("unexpected-implied-end-tag-in-table",
             #  {"name":  self.tree.openElements[-1].name})
             self.tree.openElements.pop()
@@ -2127,7 +2128,8 @@ class InRowPhase(Phase):
 
     # helper methods (XXX unify this with other table helper methods)
     def clearStackToTableRowContext(self):
-        while self.tree.openElements[-1].name not in ("tr", "html"):
+        while (self.tree.openElements[-1].namespace != self.tree.defaultNamespace or
+               self.tree.openElements[-1].name not in ("tr", "html")):
             self.parser.parseError("unexpected-implied-end-tag-in-table-row",
                                    {"name": self.tree.openElements[-1].name})
             self.tree.openElements.pop()
